@@ -359,7 +359,7 @@ def build(tier, seed):
     sens_alpha = vals.reals('c04.S.long', 7, -1.5, 1.5, seed)
     for model in ref.MODELS:
         for n in lens:
-            for mag in (1e-3, 1.0, 40.0, 800.0):
+            for mag in (1e-12, 1e-8, 1e-3, 1.0, 40.0, 800.0):
                 for params in itertools.product(*[a[:2] for a in scale[model]]):
                     for p in (0, 2):
                         long_cases.append({
@@ -380,6 +380,9 @@ def build(tier, seed):
             op = [list(c) for c in combo if c != ('absent',)]
             if op:
                 ops.append(op)
+                if len(op) > 1:
+                    # the same dictionary written down in the other key order
+                    ops.append(op[::-1])
         n = 2
         for d in range(1, depth + 1):
             for hist in itertools.product(ops, repeat=d):
@@ -405,7 +408,7 @@ def build(tier, seed):
                  'every call' % depth),
         ],
         'bounds': {'n_obs_max': max_n, 'sens_width_max': max_p,
-                   'long_lengths': lens, 'long_magnitudes': [1e-3, 1.0, 40.0, 800.0],
+                   'long_lengths': lens, 'long_magnitudes': [1e-12, 1e-8, 1e-3, 1.0, 40.0, 800.0],
                    'reduced_history_depth': depth,
                    'scale_alphabet': scale, 'bad_scales': bad,
                    'outputs_pos': pos, 'outputs_mixed': mixed},
